@@ -347,6 +347,25 @@ class ExtendedKalmanFilter:
                     extra = f"\nExtra: {extra_from_map}"
                 raise ModelConstructionError(f"Mismatched Calibration:{missing}{extra}")
 
+        if len(process_noise) != self.control_size:
+            raise ModelConstructionError(
+                f"Process noise has {len(process_noise)} entries, expected one for each of the {self.control_size} controls"
+            )
+        for key, value in process_noise.items():
+            if value < 0.0:
+                raise ModelConstructionError(
+                    f"Negative process noise {value} for {key}"
+                )
+        if set(sensor_models.keys()) != set(sensor_noises.keys()):
+            raise ModelConstructionError(
+                f"Mismatched sensors: models for {sorted(sensor_models.keys())}, noises for {sorted(sensor_noises.keys())}"
+            )
+        for key, sensor_model in sensor_models.items():
+            if len(sensor_noises[key]) != len(sensor_model):
+                raise ModelConstructionError(
+                    f"Sensor {key} has {len(sensor_model)} readings but {len(sensor_noises[key])} noise entries"
+                )
+
         self._process_model = BasicBlock(
             statements=self._translate_process_model(state_model),
             indent=4,
